@@ -21,8 +21,23 @@ import (
 
 // soupRunner drives one emulator CPU over a soup case (no model involved).
 type soupRunner struct {
-	b   *bus.Rec
-	cpu z80.CPU
+	b          *bus.Rec
+	cpu        z80.CPU
+	retn, reti counter
+	// tbl: mode-0 request data is carved out of this host-owned array; the bytes behind it are not the emulator's
+	tbl [16]uint8
+	// bad: set when a Step wrote into tbl
+	bad string
+}
+
+func (r *soupRunner) setHandlers(bits int) {
+	r.cpu.RETNHandler, r.cpu.RETIHandler = nil, nil
+	if bits&1 != 0 {
+		r.cpu.RETNHandler = &r.retn
+	}
+	if bits&2 != 0 {
+		r.cpu.RETIHandler = &r.reti
+	}
 }
 
 type soupTrace struct {
@@ -41,6 +56,8 @@ func (r *soupRunner) load(c *soupCase) {
 	if c.NilIO {
 		r.cpu.IO = nil
 	}
+	r.setHandlers(c.Handlers)
+	r.bad = ""
 	eng.ToCPU(&c.St, &r.cpu)
 }
 
@@ -54,6 +71,13 @@ func (r *soupRunner) applyEvents(c *soupCase, s int) {
 				r.cpu.Interrupt = z80.IM1Interrupt()
 			case len(it.Data) == 1 && s%2 == 0:
 				r.cpu.Interrupt = z80.IM2Interrupt(uint8(it.Data[0]))
+			case s%3 == 1 && len(it.Data) <= 8:
+				// the host keeps its request bytes in a table of its own
+				for i := range r.tbl {
+					r.tbl[i] = canary
+				}
+				copy(r.tbl[:], toBytes(it.Data))
+				r.cpu.Interrupt = &z80.Interrupt{Type: z80.IMType, Data: r.tbl[:len(it.Data)]}
 			default:
 				d := toBytes(it.Data)
 				r.cpu.Interrupt = z80.IM0Interrupt(d[0], d[1:]...)
@@ -84,7 +108,15 @@ func logHash(l []bus.Access) uint64 {
 func (r *soupRunner) stepOnce(c *soupCase, s int) (ref.State, uint64, bool, any) {
 	r.applyEvents(c, s)
 	r.b.Log = r.b.Log[:0]
+	entry := r.cpu.Interrupt
 	p := eng.SafeStep(&r.cpu)
+	if entry != nil && len(entry.Data) > 0 && &entry.Data[0] == &r.tbl[0] {
+		for _, x := range r.tbl[len(entry.Data):] {
+			if x != canary && r.bad == "" {
+				r.bad = fmt.Sprintf("Step %d wrote into the host's table behind the data bytes of the request it acknowledged", s+1)
+			}
+		}
+	}
 	return eng.FromCPU(&r.cpu), logHash(r.b.Log), r.cpu.Interrupt != nil, p
 }
 
@@ -116,6 +148,7 @@ func (r *soupRunner) cloneInto(dst *soupRunner, copyHALT bool) {
 			it.Data = append([]uint8(nil), r.cpu.Interrupt.Data...)
 			dst.cpu.Interrupt = &it
 		}
+		dst.flipHandlers(r)
 		return
 	}
 	dst.cpu = z80.CPU{Memory: dst.b, IO: dst.b}
@@ -133,6 +166,19 @@ func (r *soupRunner) cloneInto(dst *soupRunner, copyHALT bool) {
 		it.Data = append([]uint8(nil), r.cpu.Interrupt.Data...)
 		dst.cpu.Interrupt = &it
 	}
+	dst.flipHandlers(r)
+}
+
+// flipHandlers gives the rebuilt CPU the opposite observer registration of the original.
+func (r *soupRunner) flipHandlers(orig *soupRunner) {
+	bits := 0
+	if orig.cpu.RETNHandler == nil {
+		bits |= 1
+	}
+	if orig.cpu.RETIHandler == nil {
+		bits |= 2
+	}
+	r.setHandlers(bits)
 }
 
 type c10Case struct {
@@ -219,6 +265,9 @@ func init() {
 		if full.panic != nil {
 			return "", nil
 		}
+		if a.bad != "" {
+			return a.bad, nil
+		}
 		if c.Other != nil {
 			return c10Interleave(a, b, &c.Soup, c.Other, &full), nil
 		}
@@ -229,6 +278,12 @@ func init() {
 func genC10Soup(t *rapid.T) soupCase {
 	c := genSoup(t, 20, 48)
 	genSoupIntr(t, &c, 2)
+	c.Handlers = rapid.IntRange(0, 3).Draw(t, "handlers")
+	if rapid.IntRange(0, 3).Draw(t, "retx") == 0 {
+		// RETN / RETI with differing flip-flops (as inside an NMI routine)
+		c.Code = append([]int{0xED, rapid.SampledFrom([]int{0x4D, 0x45}).Draw(t, "ret")}, c.Code...)
+		c.St.IFF1, c.St.IFF2 = false, true
+	}
 	// harness actions that expose a decode cache: poke an executed address, set PC back to it
 	if rapid.IntRange(0, 1).Draw(t, "actions?") == 0 {
 		n := rapid.IntRange(1, 2).Draw(t, "nactions")
@@ -300,6 +355,9 @@ func TestC10Deterministic(t *testing.T) {
 			for i := 0; i < 8; i++ {
 				points = append(points, rapid.IntRange(0, len(full.states)).Draw(t, "snapshot"))
 			}
+		}
+		if a.bad != "" {
+			violation(t, "C10", "det", c10Case{Soup: c}, "a Step writes nothing but the CPU's state, memory and ports", a.bad)
 		}
 		for _, k := range points {
 			if msg := c10Clone(a, b, &c, k, &full); msg != "" {
